@@ -70,6 +70,7 @@ func newWriteRec() *writeRec {
 }
 
 type Frame struct {
+	thinCalls bool // inside a dynamic dispatch over many candidates: assume only unscoped ensures
 	vc        *VC
 	fn        *ssa.Function
 	con       *Contract
